@@ -305,7 +305,11 @@ def ka_log(x, base):
         raise KaRuntimeError(f"Non-positive value passed to log: {x}")
     if dispatch("<=", (base, 0)) or dispatch("==", (base, 1)):
         raise KaRuntimeError(f"Invalid base passed to log: {base}")
-    return math.log(x, base)
+    try:
+        return math.log(x, base)
+    except ValueError:
+        # A positive fraction so small that it is zero as a float.
+        raise KaRuntimeError(f"Value passed to log is too close to zero: {x}")
 
 def ka_sqrt(x):
     if dispatch("<", (x, 0)):
